@@ -349,8 +349,12 @@ class MasterSim(object):
             'memory': spell_mb(res[0] * self.unit, style),
             'cpu': spell_cpu(res[1], style),
             'disk': spell_mb(res[2] * self.unit, style + 1),
+            # bits 0-2: published traits; bits 3-4: traits nodes detect
+            # themselves (never published in /traits)
             'traits': [TRAIT_NAMES[i] for i in range(3)
-                       if decl['traits'] & (1 << i)],
+                       if decl['traits'] & (1 << i)] +
+                      [name for pos, name in enumerate(UNPUBLISHED_TRAITS)
+                       if decl['traits'] & (8 << pos)],
             'assignments': [
                 {'pattern': pat, 'priority': prio}
                 for pat, prio in decl['assign']
